@@ -7,6 +7,7 @@ import (
 
 	"github.com/vechain/thor/v2/builtin"
 	"github.com/vechain/thor/v2/thor"
+	"github.com/vechain/thor/v2/tx"
 )
 
 // Diff is one disagreement between the extracted model and the implementation.
@@ -264,9 +265,26 @@ func (o *Obs) PropertyC08() *Failure {
 			return &Failure{"paid-not-multiple-of-gas", "paid is not gasUsed times a price"}
 		}
 	}
-	// per account, from the receipt alone: exactly the payer is charged gasUsed x price, exactly the beneficiary receives the
-	// reward, and no other account's VET / VTHO (at block time) moves except through the transfers / energy Transfer events
-	// the receipt shows.  Every leaf of both walks is checked (known address or not).
+	var rcs tx.Receipts
+	if o.applied() {
+		rcs = tx.Receipts{o.Receipt}
+	}
+	if f := ExplainLeaves(o.Pre, o.Post, rcs, o.Benef); f != nil {
+		f.Class = selfClass(f.Class)
+		return f
+	}
+	return nil
+}
+
+// ExplainLeaves: from the receipts alone — exactly each payer is charged its gasUsed x price, exactly the beneficiary receives the
+// rewards, and no other account's VET / VTHO (at block time) moves except through the transfers / energy Transfer events the
+// receipts show.  Every leaf of both walks is checked (known address or not).
+func ExplainLeaves(pre, post *Walk, rcs tx.Receipts, benef thor.Address) *Failure {
+	return ExplainLeavesExtra(pre, post, rcs, benef, nil)
+}
+
+// ExplainLeavesExtra: as ExplainLeaves, with additional expected VTHO credits (the staking reward's shares).
+func ExplainLeavesExtra(pre, post *Walk, rcs tx.Receipts, benef thor.Address, extra map[thor.Address]*big.Int) *Failure {
 	expE, expB := map[thor.Bytes32]*big.Int{}, map[thor.Bytes32]*big.Int{}
 	bump := func(m map[thor.Bytes32]*big.Int, a thor.Address, d *big.Int, sign int) {
 		k := thor.Blake2b(a[:])
@@ -279,12 +297,14 @@ func (o *Obs) PropertyC08() *Failure {
 			m[k].Sub(m[k], d)
 		}
 	}
-	var payerKey thor.Bytes32
-	if o.applied() {
-		rc := o.Receipt
-		payerKey = thor.Blake2b(rc.GasPayer[:])
+	for a, v := range extra {
+		bump(expE, a, v, +1)
+	}
+	payers := map[thor.Bytes32]thor.Address{}
+	for _, rc := range rcs {
+		payers[thor.Blake2b(rc.GasPayer[:])] = rc.GasPayer
 		bump(expE, rc.GasPayer, rc.Paid, -1)
-		bump(expE, o.Benef, rc.Reward, +1)
+		bump(expE, benef, rc.Reward, +1)
 		for _, out := range rc.Outputs {
 			for _, tf := range out.Transfers {
 				bump(expB, tf.Sender, tf.Amount, -1)
@@ -300,10 +320,10 @@ func (o *Obs) PropertyC08() *Failure {
 		}
 	}
 	keys := map[thor.Bytes32]bool{}
-	for k := range o.Pre.Leaves {
+	for k := range pre.Leaves {
 		keys[k] = true
 	}
-	for k := range o.Post.Leaves {
+	for k := range post.Leaves {
 		keys[k] = true
 	}
 	zero := new(big.Int)
@@ -314,10 +334,10 @@ func (o *Obs) PropertyC08() *Failure {
 	sort.Slice(sorted, func(i, j int) bool { return string(sorted[i][:]) < string(sorted[j][:]) })
 	for _, k := range sorted {
 		pe, qe, pb, qb := zero, zero, zero, zero
-		if p := o.Pre.Leaves[k]; p != nil {
+		if p := pre.Leaves[k]; p != nil {
 			pe, pb = p.EnergyAtT, p.Bal
 		}
-		if q := o.Post.Leaves[k]; q != nil {
+		if q := post.Leaves[k]; q != nil {
 			qe, qb = q.EnergyAtT, q.Bal
 		}
 		we, wb := expE[k], expB[k]
@@ -328,14 +348,13 @@ func (o *Obs) PropertyC08() *Failure {
 			wb = zero
 		}
 		if d := new(big.Int).Sub(qe, pe); d.Cmp(we) != 0 {
-			if o.applied() && k == payerKey {
-				return &Failure{selfClass("payer-not-charged-gas-times-price"), fmt.Sprintf("gas payer %s: VTHO changed by %s, receipt implies %s (paid=%s = gasUsed x price)",
-					o.Receipt.GasPayer, d, we, o.Receipt.Paid)}
+			if a, ok := payers[k]; ok {
+				return &Failure{"payer-not-charged-gas-times-price", fmt.Sprintf("gas payer %s: VTHO changed by %s, the receipts imply %s (paid = gasUsed x price)", a, d, we)}
 			}
-			return &Failure{selfClass("vtho-moved-without-ledger-op"), fmt.Sprintf("account leaf %x: VTHO at block time changed by %s, the receipt (paid / reward / energy transfers) implies %s", k[:6], d, we)}
+			return &Failure{"vtho-moved-without-ledger-op", fmt.Sprintf("account leaf %x: VTHO at block time changed by %s, the receipts (paid / reward / energy transfers) imply %s", k[:6], d, we)}
 		}
 		if d := new(big.Int).Sub(qb, pb); d.Cmp(wb) != 0 {
-			return &Failure{selfClass("vet-moved-without-transfer"), fmt.Sprintf("account leaf %x: VET changed by %s, the receipt's transfers imply %s", k[:6], d, wb)}
+			return &Failure{"vet-moved-without-transfer", fmt.Sprintf("account leaf %x: VET changed by %s, the receipts' transfers imply %s", k[:6], d, wb)}
 		}
 	}
 	return nil
